@@ -8,7 +8,7 @@ CONSTANTS
   StartModes <- StartAll
   FixD5 = TRUE
   FixD6 = FALSE
-  CfgOK <- CfgSame
+  CfgOK <- CfgOne
 SPECIFICATION MCSpec
 VIEW View
 INVARIANTS TypeOK ClosedOnce RegistryConsistent SharedIffSameKey StartOncePerLivePeriod NoStaleInit NoStaleDetach NoStaleUpdater NoLateInit
